@@ -216,6 +216,28 @@ pub fn log(e: Ev) {
     with(|c| c.events.push(e));
 }
 
+/// Re-evaluate something as if it had been called INSTEAD of what ran since `mark` (the call
+/// counter restarts at the mark, so a stateful `==` oracle answers the same way), without
+/// injection, and leave no trace: used to ask `a != b` next to `a == b`.
+pub fn mark() -> u64 {
+    with(|c| c.calls)
+}
+pub fn shadow<T>(mark: u64, f: impl FnOnce() -> T) -> T {
+    let (calls, inject, nev) = with(|c| {
+        let s = (c.calls, c.inject, c.events.len());
+        c.calls = mark;
+        c.inject = None;
+        s
+    });
+    let r = f();
+    with(|c| {
+        c.calls = calls;
+        c.inject = inject;
+        c.events.truncate(nev);
+    });
+    r
+}
+
 #[derive(Clone, Copy)]
 pub enum Kind {
     K,
